@@ -14,7 +14,7 @@ vars == <<tree, paths, exts, bigger>>
 
 WellFormed(t) == \A n \in t : Len(n.p) > 1 => \E m \in t : m.p = SubSeq(n.p, 1, Len(n.p) - 1) /\ m.ty = "dir"
 
-Init == /\ tree \in {t \in SUBSET UNION {{[p |-> p, ty |-> ty] : ty \in Types(p)} : p \in U} :
+Init == /\ tree \in {t \in SUBSET UNION {{[p |-> p, ty |-> ty, to |-> IF ty = "link" THEN (IF p = <<"l">> THEN "dir" ELSE "file") ELSE ""] : ty \in Types(p)} : p \in U} :
                         WellFormed(t) /\ \A a, b \in t : a.p = b.p => a = b}
         /\ paths \in PathChoices /\ exts \in ExtChoices
         /\ bigger \in PathChoices
@@ -26,7 +26,8 @@ Spec == Init /\ [][Next]_vars
 Monotone == Must(tree, paths, exts) \subseteq Must(tree, paths \o bigger, exts)
 NoWorkDir == \A f \in Must(tree, paths, exts) : ~WorkDirAnywhere(f)
 CleanWithin == \A f \in MustRemove(tree, paths, exts) \cup MayRemove(tree, paths, exts) : \E d \in SeqToSet(paths) : IsPrefix(d, f)
-CleanIsDenoted == NormExts(exts) # {} => MustRemove(tree, paths, exts) = Must(tree, paths, exts)
+CleanIsDenoted == NormExts(exts) # {} => /\ Must(tree, paths, exts) \subseteq MustRemove(tree, paths, exts) \cup MayRemove(tree, paths, exts)
+                                         /\ MustRemove(tree, paths, exts) \subseteq Must(tree, paths, exts)
 NeverThroughLink == \A f \in MustRemove(tree, paths, exts) \cup MayRemove(tree, paths, exts) : ~LinkAbove(tree, f)
 Idem == NormIdempotent(exts)
 MissingContributesNothing == Must(tree, <<<<"nope">>>>, exts) = {}
